@@ -555,6 +555,242 @@ def spec_lookup(entry, recursive):
                   'loops': {}, 'dropped': []}
     return sp
 
+# ---- Scope.declare / update / get_type / get_symbol_scope (loki/types/scope.py) -----------------------------------
+# The scope's table is used through the contract proved above for SymbolTable: an abstract map keyed by the folded
+# name (`k` below stands for fold(name)), whose recursive lookup answers for the whole parent chain.
+SCOPE = 'loki/types/scope.py'
+_K = z3.IntSort()
+S_NEW = z3.Function('SymbolAttributes_new', z3.IntSort(), z3.IntSort())           # content of SymbolAttributes(**kw)
+S_CLONE = z3.Function('SymbolAttributes_clone', z3.IntSort(), z3.IntSort(), z3.IntSort())  # content of a.clone(**kw)
+S_CHAIN_HAS = z3.Function('scope_chain_declares', z3.IntSort(), z3.IntSort(), z3.BoolSort())
+S_CHAIN_VAL = z3.Function('scope_chain_value', z3.IntSort(), z3.IntSort(), z3.IntSort())
+
+
+class _AttrTok:
+    """a SymbolAttributes object: content (abstract) and whether it is a copy made during the call"""
+    def __init__(self, content, fresh):
+        self.content, self.fresh = content, fresh
+
+    def clone(self, **kw):
+        return _AttrTok(S_CLONE(self.content, _kw_id(kw)), True)
+
+
+_KW = {}
+
+
+def _kw_id(kw):
+    """identity of a keyword dictionary (the specs pass at most two distinct ones)"""
+    key = tuple(sorted((k, id(v)) for k, v in kw.items()))
+    return z3.IntVal(_KW.setdefault(key, len(_KW) + 1))
+
+
+class _NameTok:
+    def __init__(self, k):
+        self.k = k
+
+    def __format__(self, spec):
+        return '<name>'
+
+
+class _TableTok:
+    """SymbolTable through its contract: local part (dom, val) keyed by the folded name, parent chain behind `pid`"""
+    def __init__(self, dom, val, pid=None):
+        self.dom, self.val, self.pid = dom, val, pid
+        self.parent_consulted = False
+
+    def __contains__(self, name):
+        return bool(ctx().branch(z3.IsMember(name.k, self.dom), 'declared-here'))
+
+    def __getitem__(self, name):
+        if name not in self:
+            raise KeyError(name)
+        return _AttrTok(z3.Select(self.val, name.k), True)            # __getitem__ returns a copy
+
+    def __setitem__(self, name, value):
+        if not isinstance(value, _AttrTok):
+            raise OutOfSubset('symbol table entry %r' % (value,))
+        self.dom = z3.SetAdd(self.dom, name.k)
+        self.val = z3.Store(self.val, name.k, value.content)
+
+    def lookup(self, name, recursive=True):
+        c = ctx()
+        if name in self:
+            return _AttrTok(z3.Select(self.val, name.k), True)
+        rec = recursive if isinstance(recursive, bool) else truth(recursive)
+        if rec and self.pid is not None:
+            self.parent_consulted = True
+            if c.branch(S_CHAIN_HAS(self.pid, name.k), 'declared-in-an-enclosing-scope'):
+                return _AttrTok(S_CHAIN_VAL(self.pid, name.k), True)
+        return None
+
+
+class _ScopeTok:
+    def __init__(self, table, parent=None):
+        self.symbol_attrs, self.parent = table, parent
+
+
+class _DataType:
+    pass
+
+
+def _scope_fn(meth, extra=None):
+    from pyvc.inline import inline
+    g = {'DataType': _DataType, 'SymbolAttributes': lambda *a, **kw: _AttrTok(S_NEW(_kw_id(dict(kw, **{'#%d' % i: x for i, x in enumerate(a)}))), True)}
+    g.update(extra or {})
+    return inline(SCOPE, 'Scope.' + meth, g), g
+
+
+def _scope_sha(meth):
+    import ast
+    src = rewrite.read_source(SCOPE)
+    node, _ = rewrite.find_def(ast.parse(src), 'Scope.' + meth)
+    return rewrite.sha(rewrite.func_text(src, node))
+
+
+def _scope_spec(meth, variant, setup_case, post_case, raises_case=None):
+    def setup(spec):
+        c = ctx()
+        _KW.clear()
+        dom, val = c.fresh(z3.SetSort(_K), 'local_names'), c.fresh(z3.ArraySort(_K, z3.IntSort()), 'local_attrs')
+        has_parent = bool(c.branch(c.fresh(z3.BoolSort(), 'has_parent'), 'has-parent'))
+        table = _TableTok(dom, val, c.fresh(z3.IntSort(), 'parent_chain') if has_parent else None)
+        scope = _ScopeTok(table, _ScopeTok(None) if has_parent else None)
+        name = _NameTok(c.fresh(_K, 'folded_name'))
+        env = {'scope': scope, 'table': table, 'dom0': dom, 'val0': val, 'name': name, 'k': name.k}
+        fn, g = _scope_fn(meth)
+        env['call'] = setup_case(env, fn, scope, name)
+        return (env,), {}, env
+
+    def post(env, r):
+        return post_case(env, r)
+
+    def raises(env, exc):
+        return raises_case(env, exc) if raises_case is not None else None
+    sp = FunctionSpec(PROP, SCOPE, 'Scope.' + meth, {}, setup, post, raises=raises, theory=T, variant=variant,
+                      decode=lambda env, m, r: {'class': 'Scope', 'method': meth, 'variant': variant,
+                                                'declared_here': z3.is_true(m.eval(z3.IsMember(env['k'], env['dom0']),
+                                                                                   model_completion=True)),
+                                                'has_parent': env['scope'].parent is not None})
+    sp.fn_override = lambda env: env['call']()
+    sp.fn_info = {'file': SCOPE, 'qualname': 'Scope.' + meth, 'sha': _scope_sha(meth), 'loops': {}, 'dropped': []}
+    return sp
+
+
+def _frame_others(env):
+    """every other key of the local table is untouched"""
+    t, k = env['table'], env['k']
+    j = z3.Int('other_name')
+    return z3.ForAll([j], z3.Implies(j != k, z3.And(z3.IsMember(j, t.dom) == z3.IsMember(j, env['dom0']),
+                                                    z3.Select(t.val, j) == z3.Select(env['val0'], j))))
+
+
+def scope_specs():
+    out = []
+    for fail in (True, False):
+        for with_dtype in (True, False):
+            kw = {'intent': object()}
+            if with_dtype:
+                kw['dtype'] = 'real'
+
+            def setup_u(env, fn, scope, name, fail=fail, kw=kw):
+                env['kwid'] = _kw_id(kw)
+                return lambda: fn(scope, name, fail=fail, **kw)
+
+            def post_u(env, r, fail=fail):
+                t, k = env['table'], env['k']
+                here = z3.IsMember(k, env['dom0'])
+                want = z3.If(here, S_CLONE(z3.Select(env['val0'], k), env['kwid']), S_NEW(env['kwid']))
+                return [('updates-only-a-local-declaration-when-asked-to-fail', z3.Implies(z3.BoolVal(fail), here)),
+                        ('entry-is-the-local-entry-updated-or-a-new-one', z3.Select(t.val, k) == want),
+                        ('declared-here-afterwards', z3.IsMember(k, t.dom)),
+                        ('other-names-untouched', _frame_others(env))]
+
+            def raises_u(env, exc, fail=fail):
+                if isinstance(exc, ValueError):
+                    t = env['table']
+                    return [('only-if-asked-to-fail', z3.BoolVal(fail)),
+                            ('only-if-not-declared-here', z3.Not(z3.IsMember(env['k'], env['dom0']))),
+                            ('table-unchanged', z3.And(t.dom == env['dom0'], t.val == env['val0']))]
+                return None
+            out.append(_scope_spec('update', 'fail=%s,%s' % (fail, 'dtype given' if with_dtype else 'no dtype'),
+                                   setup_u, post_u, raises_u))
+
+        def setup_d(env, fn, scope, name, fail=fail):
+            kw = {'intent': object()}
+            env['kwid'] = _kw_id(dict(kw, **{'#0': 'real'}))
+            return lambda: fn(scope, name, 'real', fail=fail, **kw)
+
+        def post_d(env, r, fail=fail):
+            t, k = env['table'], env['k']
+            return [('redeclaration-only-if-allowed', z3.Implies(z3.BoolVal(fail), z3.Not(z3.IsMember(k, env['dom0'])))),
+                    ('entry-is-the-new-declaration', z3.Select(t.val, k) == S_NEW(env['kwid'])),
+                    ('declared-here-afterwards', z3.IsMember(k, t.dom)),
+                    ('other-names-untouched', _frame_others(env))]
+
+        def raises_d(env, exc, fail=fail):
+            if isinstance(exc, ValueError):
+                t = env['table']
+                return [('only-if-asked-to-fail', z3.BoolVal(fail)),
+                        ('only-if-declared-here', z3.IsMember(env['k'], env['dom0'])),
+                        ('table-unchanged', z3.And(t.dom == env['dom0'], t.val == env['val0']))]
+            return None
+        out.append(_scope_spec('declare', 'fail=%s' % fail, setup_d, post_d, raises_d))
+
+        for recursive in (True, False):
+            def setup_g(env, fn, scope, name, fail=fail, recursive=recursive):
+                return lambda: fn(scope, name, recursive=recursive, fail=fail)
+
+            def post_g(env, r, fail=fail, recursive=recursive):
+                t, k = env['table'], env['k']
+                here = z3.IsMember(k, env['dom0'])
+                up = z3.BoolVal(False)
+                upv = z3.IntVal(0)
+                if recursive and t.pid is not None:
+                    up, upv = S_CHAIN_HAS(t.pid, k), S_CHAIN_VAL(t.pid, k)
+                frame = ('table-unchanged', z3.And(t.dom == env['dom0'], t.val == env['val0']))
+                if r is None:
+                    return [frame, ('none-only-if-undeclared', z3.Not(z3.Or(here, up))),
+                            ('none-only-if-not-asked-to-fail', z3.BoolVal(not fail))]
+                if not isinstance(r, _AttrTok):
+                    raise OutOfSubset('get_type returned %r' % (r,))
+                return [frame, ('innermost-declaration', r.content == z3.If(here, z3.Select(env['val0'], k), upv)),
+                        ('declared', z3.Or(here, up)), ('independent-copy', z3.BoolVal(bool(r.fresh)))]
+
+            def raises_g(env, exc, fail=fail, recursive=recursive):
+                if isinstance(exc, KeyError):
+                    t, k = env['table'], env['k']
+                    up = S_CHAIN_HAS(t.pid, k) if (recursive and t.pid is not None) else z3.BoolVal(False)
+                    return [('only-if-asked-to-fail', z3.BoolVal(fail)),
+                            ('only-if-undeclared', z3.Not(z3.Or(z3.IsMember(k, env['dom0']), up)))]
+                return None
+            out.append(_scope_spec('get_type', 'recursive=%s,fail=%s' % (recursive, fail), setup_g, post_g, raises_g))
+    # get_symbol_scope: a chain of 1..3 scopes with symbolic tables: the innermost scope declaring the name
+    for depth in (1, 2, 3):
+        def setup_s(env, fn, scope, name, depth=depth):
+            c = ctx()
+            chain = []
+            parent = None
+            for i in reversed(range(depth)):
+                tb = _TableTok(c.fresh(z3.SetSort(_K), 'names%d' % i), c.fresh(z3.ArraySort(_K, z3.IntSort()), 'attrs%d' % i))
+                parent = _ScopeTok(tb, parent)
+                chain.insert(0, parent)
+            env['chain'] = chain
+            env['doms'] = [s.symbol_attrs.dom for s in chain]
+            return lambda: fn(chain[0], name)
+
+        def post_s(env, r):
+            k, chain = env['k'], env['chain']
+            decl = [z3.IsMember(k, d) for d in env['doms']]
+            out = [('tables-unchanged', z3.And([s.symbol_attrs.dom == d for s, d in zip(chain, env['doms'])]))]
+            if r is None:
+                return out + [('none-only-if-undeclared-everywhere', z3.Not(z3.Or(decl)))]
+            i = next((j for j, s in enumerate(chain) if s is r), None)
+            if i is None:
+                return out + [('returns-a-scope-of-the-chain', z3.BoolVal(False))]
+            return out + [('declares-the-name', decl[i]), ('innermost', z3.Not(z3.Or(decl[:i])) if i else z3.BoolVal(True))]
+        out.append(_scope_spec('get_symbol_scope', 'chain of %d' % depth, setup_s, post_s))
+    return out
+
 
 def specs(tier='quick'):
     out = [spec_lookup('lookup', None), spec_lookup('_lookup_formatted_name', None)]
@@ -569,7 +805,7 @@ def specs(tier='quick'):
                     out.append(_spec(clsname, meth, overridden, 'default'))
             else:
                 out.append(_spec(clsname, meth, overridden))
-    return out
+    return out + scope_specs()
 
 
 META = {
